@@ -493,3 +493,8 @@ mod tests {
         assert!(journal.delegated_debits_since(execution, &TxEnv::default()).is_empty());
     }
 }
+
+// Verification hook (no effect on normal builds): Kani proof harnesses for this module's private functions.
+#[cfg(kani)]
+#[path = "/verif/kani/c13_reserve.rs"]
+mod verif_kani_c13;
